@@ -48,6 +48,27 @@ def _c10_insert_lost(rec):
     return False
 
 
+# ----------------------------------------------------------------------------------------- C06
+@classifier("parallel-run-races-on-files-that-star-import-each-other")
+def _c06_star_race(rec):
+    """A file that star-imports a sibling module which is rewritten in the same run is formatted against whatever is on disk at that moment: one after the other
+    the sibling (sorted first) has already lost its unused definitions and the star import is dropped, in parallel it may still be intact and the import is
+    expanded. Only files with such an import may differ."""
+    if rec.get("kind") != "parallel_run_differs_from_sequential_run":
+        return False
+    files = dict(((rec.get("replay") or {}).get("arg") or {}).get("files") or [])
+    differing = (rec.get("detail") or {}).get("files_differing") or []
+    if not differing:
+        return False
+    for rel in differing:
+        text = files.get(rel) or ""
+        folder = rel.rsplit("/", 1)[0] + "/" if "/" in rel else ""
+        stars = re.findall(r"^from (\w+) import \*", text, flags=re.M)
+        if not any(folder + mod + ".py" in files for mod in stars):
+            return False
+    return True
+
+
 # ----------------------------------------------------------------------------------------- C12
 def _subset_spans(rec):
     d = rec.get("detail") or {}
